@@ -200,7 +200,8 @@ CLAIMED["C33"] = ("Proof over the generated code: the working tree's generator i
     "enumeration / identityref leaves through the generated value table), and (b) every leaf that was set keeps its pointer and value, and every leaf without a "
     "default is unchanged whether set or not. Children, list entries and ordered-list entries are populated by their own PopulateDefaults, called by contract "
     "(same template); the frame is type-level (`modifies subtree(t)`: fields of the struct's type and of the struct types below it). ygot.BuildEmptyTree is "
-    "a trusted library model (only nil struct-pointer fields of the subtree change). Not covered: defaults of union, decimal64, binary and leaf-list leaves "
+    "a trusted library model (only nil struct-pointer fields of the subtree change). Not covered: that every child container and list entry is actually visited (each struct's contract speaks about its own leaves; a list the parent "
+    "forgets to walk is not detected - seed C33-2), defaults of union, decimal64, binary and leaf-list leaves "
     "(listed per struct in the evidence), the second sentence of the property (a tree that validated still validates - ytypes.Validate is a reflection walker), "
     "schemas outside the corpus.", "5 (C33)", "")
 
